@@ -13,7 +13,7 @@ mod sexp;
 mod swap;
 mod types;
 
-use gen::{gen_val, sequences, LimitGen, NearLimit, RandGen};
+use gen::{gen_val, sequences, BorrowHistory, GrowThen, LimitGen, NearLimit, RandGen};
 use hx_common::{Args, Recorder, Rng};
 use run::{parse_header, CaseOut, Cx, FixedOps, OpSource, Prop};
 use sexp::{parse_path, print_path, Shape, Step, Val};
@@ -34,7 +34,10 @@ impl Runner<'_> {
             Some(e) => {
                 *self.cases_by_shape.entry(e.id.to_string()).or_default() += 1;
                 self.cx.rec.bump(&format!("shape:{}", e.id));
-                if hdr.swap {
+                if hdr.swap && hdr.account && self.cx.prop == Prop::C03 {
+                    self.cx.rec.bump("backing:account_pair");
+                    (e.run_swap_acct)(header, &hdr, src, &mut self.cx)
+                } else if hdr.swap {
                     (e.run_swap)(header, &hdr, src, &mut self.cx)
                 } else if hdr.account && self.cx.prop == Prop::C03 {
                     self.cx.rec.bump("backing:account");
@@ -374,7 +377,93 @@ fn gen_c03(runner: &mut Runner, rng: &mut Rng, args: &Args, extra: &mut BTreeMap
             nacct += 1;
         }
     }
+    // ---- resize histories over SEVERAL exclusive borrows of the same account (every resize is followed by a
+    //      `reborrow`: the new top wrapper's range is observed with resize_delta > 0, = 0, < 0)
+    let hist_rounds = if reduced { 1 } else if thorough { 10 } else { 2 };
+    for round in 0..hist_rounds {
+        for (i, (tid, path)) in LIMITS.iter().enumerate() {
+            let e = reg.iter().find(|e| e.id == *tid).unwrap();
+            let v = if round == 0 { e.shape.default_val() } else { gen_val(&e.shape, rng, 0) };
+            let header = format!("case acct-hist{i}-{round}-{tid} {} {}", e.shape_s, v.print());
+            runner.cx.rec.bump("source:account_borrow_history");
+            let mut inner = RandGen::new(rng.fork(), 1000);
+            inner.scope_pct = 0;
+            runner.run(&header, &mut BorrowHistory { path: parse_path(path).unwrap(), rng: rng.fork(), rounds: 6 + rng.below(5) as usize, step: 0, inner });
+            nacct += 1;
+        }
+    }
     extra.insert("account_backed_cases".into(), serde_json::json!(nacct));
+    // ---- swap cases on TWO ACCOUNTS serialized back to back (B directly behind A) after an earlier borrow
+    //      grew them: a pointer of B lies less than resize_delta bytes behind A's allocation end
+    let pair_rounds = if reduced { 1 } else if thorough { 6 } else { 1 };
+    let mut npair = 0u64;
+    for round in 0..pair_rounds {
+        for (tid, path) in LIMITS.iter() {
+            let e = reg.iter().find(|e| e.id == *tid).unwrap();
+            let v = if round % 2 == 0 { e.shape.default_val() } else { gen_val(&e.shape, rng, 0) };
+            let grow = [400usize, 150, 3000, 9000][(round + npair as usize) % 4] + rng.below(64) as usize;
+            let header = format!("case scratch {} {}", e.shape_s, v.print());
+            let mut scratch = Recorder::new("");
+            let hist = {
+                let mut cx = Cx { rec: &mut scratch, prop: Prop::C03, journal: None, fail_log: None };
+                let hdr = parse_header(&header);
+                let mut inner = RandGen::new(rng.fork(), 2 + rng.below(4) as usize);
+                inner.scope_pct = if round % 2 == 0 { 0 } else { 20 };
+                (e.run)(&header, &hdr, &mut GrowThen { path: parse_path(path).unwrap(), grow, step: 0, inner }, &mut cx)
+            };
+            let ops = &hist.lines[1..];
+            let vb = if round % 3 == 2 { gen_val(&e.shape, rng, 0) } else { v.clone() };
+            for k in 0..=ops.len() {
+                if k == 1 {
+                    continue;
+                }
+                let Some((model, innermost)) = hist.states.get(k) else { continue };
+                let Some((sh, va)) = sexp::get_at(&e.shape, model, innermost) else { continue };
+                let mut nodes = vec![];
+                node_paths(sh, va, &mut vec![], 3, &mut nodes);
+                let mut pairs: Vec<(Vec<Step>, Vec<Step>)> = nodes.iter().map(|(p, _)| (p.clone(), p.clone())).collect();
+                // the accessor itself first; of the others a random subset
+                while pairs.len() > 5 {
+                    let j = 1 + rng.below(pairs.len() as u64 - 1) as usize;
+                    pairs.swap_remove(j);
+                }
+                for (pa, pb) in pairs {
+                    for only_a in [false, true] {
+                        // mirrored history (both accounts grown), or only A's (B still has resize_delta = 0)
+                        if only_a && k < 2 {
+                            continue;
+                        }
+                        let mut lines = vec![];
+                        for l in &ops[..k] {
+                            lines.push(format!("A {l}"));
+                            if !only_a {
+                                lines.push(format!("B {l}"));
+                            }
+                        }
+                        lines.push(format!("swap {} {}", print_path(&pa), print_path(&pb)));
+                        if npair % 3 == 0 {
+                            for l in &ops[k..] {
+                                lines.push(format!("A {l}"));
+                                lines.push(format!("B {l}"));
+                            }
+                        }
+                        if npair % 2 == 0 {
+                            lines.push("A end".into());
+                            lines.push("B end".into());
+                        } else {
+                            lines.push("B end".into());
+                            lines.push("A end".into());
+                        }
+                        let header = format!("case acct-sw-{}-{round}-{k}-{npair} swap {} {} {} layout=account", e.id, e.shape_s, v.print(), vb.print());
+                        runner.cx.rec.bump("source:account_pair_swap");
+                        runner.run(&header, &mut FixedOps { lines, pos: 0 });
+                        npair += 1;
+                    }
+                }
+            }
+        }
+    }
+    extra.insert("account_pair_swap_cases".into(), serde_json::json!(npair));
     // ---- growth to exactly orig+10240 and one past, both layouts (last: a broken build dies here on a guard
     //      page, which ends the run; the cheaper gates above should have spoken first)
     for (i, (tid, path)) in LIMITS.iter().enumerate() {
